@@ -153,6 +153,7 @@ def case_script(name, data, use_f):
         L["reload"] = s.op("vnadata_load $v2 %s" % qs("re" + ext))
         L["dump2"] = s.op("dump_vnadata $v2")
         L["reinit"] = s.op("vnadata_init $vd S 1 1 1")
+        s.op("vnadata_set_format $vd \"Sri\"")
         L["save3"] = s.op("vnadata_save $vd \"after.s1p\"")
         s.op("unlink %s" % qs("re" + ext))
     elif kind == "vnacal":
@@ -165,6 +166,8 @@ def case_script(name, data, use_f):
         L["reload"] = s.op("v2=vnacal_load \"re.vnacal\"")
         L["dump2"] = s.op("dump_vnacal $v2")
         L["text2"] = s.op("read_file \"re.vnacal\"")
+        s.op("vnacal_set_fprecision $v2 1000")
+        s.op("vnacal_set_dprecision $v2 1000")
         L["resave2"] = s.op("vnacal_save $v2 \"re2.vnacal\"")
         L["text3"] = s.op("read_file \"re2.vnacal\"")
         s.op("unlink \"re.vnacal\"")
@@ -313,7 +316,14 @@ def judge(name, data, text, L, kind, res, part):
                     a[zk] = out[zk]
                     b[zk] = d2["out"].get(zk)
             cnt["roundtrips:" + kind] = cnt.get("roundtrips:" + kind, 0) + 1
-            if not close(a, b):
+            fmt = (out.get("format") or "").lower()
+            undefined_form = any(t_ in fmt for t_ in (
+                "prc", "prl", "src", "srl", "il", "rl", "vswr", "db")) and \
+                any(abs(complex(*z)) == 0 for row in out["data"] for z in row)
+            if undefined_form:
+                cnt["undefined_form_not_compared"] = cnt.get(
+                    "undefined_form_not_compared", 0) + 1
+            elif not close(a, b):
                 bad("reload-differs", "save+load of a loaded object changed "
                     "it:\nfirst  %s\nsecond %s" % (str(a)[:700], str(b)[:700]))
     elif kind == "vnacal":
@@ -357,8 +367,12 @@ def judge(name, data, text, L, kind, res, part):
                 "%s\n%s" % (str(out)[:600], str(d2["out"])[:600]))
         if t2 is not None and t3 is not None and t2.get("ret") != t3.get("ret") \
                 and "nan" not in str(t2.get("ret")).lower():
+            a_ = str(t2.get("ret")).split("\n")
+            b_ = str(t3.get("ret")).split("\n")
+            d_ = [(x, y) for x, y in zip(a_, b_) if x != y][:3]
             bad("reload-differs", "second-generation save differs from the "
-                "first (error terms not preserved at maximum precision)")
+                "first (error terms not preserved at maximum precision): "
+                "%d vs %d lines; first differences %s" % (len(a_), len(b_), d_))
     else:
         part["distinct"].add((kind, "ok", str(out)[:60]))
         rs = res.ev(L["resave"])
@@ -411,7 +425,10 @@ def work(chunk_id, payload):
         cases.append((cid, text))
         meta[cid] = (nm, d, L, kind)
     wd = os.path.join(workroot, "w%d" % chunk_id)
+    import time as _t
+    t0 = _t.time()
     results = R.run_cases(binary, cases, wd, timeout=3600, watchdog=20)
+    part["maxima"]["slowest_chunk_s"] = _t.time() - t0
     for cid, text in cases:
         res = results[cid]
         nm, d, L, kind = meta[cid]
@@ -423,6 +440,13 @@ def work(chunk_id, payload):
             part["harness_errors"].append("%s %s %s" % (cid, res.status,
                                                         res.detail))
             continue
+        for e_ in res.events:
+            if e_.get("ms", 0) >= 2000:
+                part["counters"]["slow_ops(>2s)"] = part["counters"].get(
+                    "slow_ops(>2s)", 0) + 1
+                if len(part["samples"]) < 3:
+                    part["samples"].append(dict(slow_op=e_["op"], ms=e_["ms"],
+                                                script=text[:1500]))
         if judge(nm, d, text, L, kind, res, part):
             part["evaluations"] += 1
         if len(part["samples"]) < 1 and len(d) < 400:
@@ -439,7 +463,7 @@ def main():
                       x["script"])
     if len(seeds) < 20:
         chk.harness_errors.append("only %d seed files" % len(seeds))
-    total = 20000 if chk.tier == "quick" else 1000000
+    total = 20000 if chk.tier == "quick" else 300000
     total = int(total * chk.args.scale)
     nchunks = 16 if chk.tier == "quick" else 128
     per = max(1, total // nchunks)
